@@ -256,6 +256,8 @@ class Gen:
                     e = f"({e}) / {r.choice([2, 5])}"
         elif x < 0.36:
             e = f"({e}) * {r.choice([2, 3, -2])}"
+        elif x < 0.40:
+            e = f"{r.choice([2, 3])} * ({e})"  # the literal on the left
         if r.random() < 0.2:
             e = f"-({e})"
         return e
@@ -277,7 +279,7 @@ class Prop:
     probes = ["family_G", "family_T", "family_S", "compared", "value_nonzero", "internal_after_output", "product_requested",
               "hermitian_product", "marker_hermitian", "marker_antihermitian", "clause_diagonal", "clause_offdiagonal",
               "clause_lower", "fn_call", "fn_series_arg", "division", "ifexp", "start_one", "start_input", "start_none",
-              "two_block_optimized", "commuting_false", "offdiag_present", "program_rejected", "prelude_program", "hermitian_product_3", "linear_operator_mode", "family_F", "flags_clause_checked", "slice_request", "domain_float", "linear_operator_mode_generated", "eviction_observed", "series_dict_reused", "flags_two_block_without_commuting",
+              "two_block_optimized", "commuting_false", "offdiag_present", "program_rejected", "prelude_program", "hermitian_product_3", "linear_operator_mode", "family_F", "flags_clause_checked", "slice_request", "domain_float", "linear_operator_mode_generated", "eviction_observed", "series_dict_reused", "earlier_computation_rechecked", "flags_two_block_without_commuting",
               "recompute_after_eviction"]
     components_real = ["pymablock.algorithm_parsing (compiler, series_computation), pymablock.series, pymablock.algorithms, "
                        "block_diagonalize wiring of scope (family S)"]
@@ -360,9 +362,12 @@ class Prop:
             if x < 0.5:
                 # the caller keeps one series dictionary and runs the computation again after replacing the inputs
                 # (series_computation adds its series to the dictionary it is given and returns it)
-                case["prelude"].update(nb=nb, shared_series=True, iseed_shift=r.randrange(1, 1 << 20))
+                case["prelude"].update(nb=nb, shared_series=True, iseed_shift=r.randrange(1, 1 << 20), pass_returned=r.random() < 0.5)
                 if x < 0.3:  # the very same algorithm, other input values
                     case["prelude"].update(src=src, ops=self._schedule(r, inputs + names + products, outputs, nb, ninf, cap, tier)[:8])
+                # requests on the first computation made after the second one has been built
+                pn = (names + products) if case["prelude"]["src"] == src else (names2 + products2)
+                case["prelude"]["post_ops"] = self._schedule(r, inputs + pn, pn[-1:], nb, ninf, cap, tier)[:10]
         return case
 
     def gen_T(self, r, tier):
@@ -497,6 +502,10 @@ class Prop:
 
     # ------------------------------------------------------------------ execution
     def execute(self, case):
+        if case.get("witness"):
+            from simkit import witness
+
+            return witness.run(case["witness"])
         if case["family"] == "F":
             return self._execute_F(case)
         pre = case.get("prelude")
@@ -513,9 +522,21 @@ class Prop:
             out0 = self._execute_one(sub, clear=False, shared_scope=shared, shared_series=shared_series)
             if out0["violation"]:
                 return out0
+            if shared_series is not None and pre.get("pass_returned") and out0.get("_series") is not None:
+                # the next computation starts from what the first one returned (copied: the returned dictionary belongs to
+                # the first computation, the caller does not edit it)
+                shared_series = dict(out0["_series"])
             out = self._execute_one(case, clear=True, shared_scope=shared, shared_series=shared_series)
+            if shared_series is not None and out["violation"] is None and out0.get("_recheck"):
+                v = out0["_recheck"](pre.get("post_ops") or [])
+                out["counters"]["earlier_computation_rechecked"] = 1
+                if v:
+                    out["violation"] = v
         else:
             out = self._execute_one(case, clear=True)
+        for o_ in (out, out0 or {}):
+            o_.pop("_recheck", None)
+            o_.pop("_series", None)
         if out0 is not None:
             out["counters"]["prelude_program"] = 1
             out["events"] += out0["events"]
@@ -857,6 +878,43 @@ class Prop:
         nontrivial = compared >= 10 and len(seen_names) >= 3 and nonzero > 0 and internal_after
         out = self._out(violation, events, counters, nontrivial)
         out["states"] = states
+
+        def recheck(ops):
+            """Later requests on the series of *this* computation (after another one was built): still the reference values."""
+            for op in ops:
+                if op[1] == "sl" or op[0] not in series:
+                    continue
+                name_, i_, j_, n_ = op
+                if i_ >= nb or j_ >= nb or sum(n_) > case["cap"]:
+                    continue
+                index_ = (i_, j_, *n_)
+                try:
+                    want_ = ref.value(name_, index_)
+                except (refdsl.IllFounded, RecursionError, TracerOverflow):
+                    continue
+                except Exception:  # noqa: BLE001 - the reference decides nothing here
+                    continue
+                try:
+                    got_ = series[name_][index_]
+                except (RecursionError, TracerOverflow):
+                    continue
+                except Exception as e:  # noqa: BLE001
+                    x = e
+                    while x is not None:
+                        if isinstance(x, (TracerOverflow, RecursionError)):
+                            break
+                        x = x.__cause__ or x.__context__
+                    if x is not None:
+                        continue
+                    return {"class": "earlier-computation-raises", "info": {},
+                            "detail": f"{name_}[{index_}] of the computation defined first, requested after a second computation was built from the same dictionary: raised {type(e).__name__}: {e}"}
+                if not same(norm(got_), norm(want_)):
+                    return {"class": "earlier-computation-changed", "info": {},
+                            "detail": f"{name_}[{index_}] of the computation defined first, requested after a second computation was built from the same dictionary: {self._show(got_)}, reference = {self._show(want_)}"}
+            return None
+
+        out["_recheck"] = recheck
+        out["_series"] = series
         return out
 
     @staticmethod
@@ -972,10 +1030,12 @@ class Prop:
                 yield {**case, "commuting_blocks": [True] * case["nb"]}
 
     def match_known(self, case, violation):
+        if case.get("witness"):
+            return case["witness"] if violation["class"] == "known-witness" else None
         return None
 
     def witnesses(self):
-        return {}
+        return {fid: {"witness": fid} for fid in ['C09/linear-operator-mode-plain-product']}
 
 
 PROP = Prop()
